@@ -193,21 +193,38 @@ FN_UNITS += [
 FN_ORACLES["np.random.uniform"] = dict(coq="o_random_uniform", ty="Z -> num A -> num A -> Z -> list (num A)", stateful=True, params=["low", "high", "size"], ptypes=[_f.NUM, _f.NUM, "shape1"], ret=_VN)
 FN_ORACLES["np.random.random"] = dict(coq="o_random_random", ty="Z -> num A", stateful=True, params=[], ptypes=[], ret=_f.NUM)
 FN_ORACLES["np.random.randint"] = dict(coq="o_random_randint", ty="Z -> Z -> Z", stateful=True, params=["low"], ptypes=[_f.INT], ret=_f.INT)
+_IK = "frouros/detectors/data_drift/streaming/statistical_test/ks.py"
+FN_UNITS += [
+    dict(name="iks_calculate_statistic", file=_IK, cls="IncrementalKSTest", fn="_calculate_statistic", params=dict(X_ref=_VN, X=_VN)),
+    dict(name="iks_calculate_p_value_aprox", file=_IK, cls="IncrementalKSTest", fn="_calculate_p_value_aprox", params=dict(X_ref_num_samples=_f.INT, X_num_samples=_f.INT, statistic=_f.NUM)),
+    dict(name="iks_calculate_p_value_exact", file=_IK, cls="IncrementalKSTest", fn="_calculate_p_value_exact",
+         params=dict(X_ref_num_samples=_f.INT, statistic=_f.NUM, gcd=_f.INT, window_size=_f.INT)),
+    # the two keywords `_update` passes: gcd is an int whenever the exact branch is taken (it is None only above MAX_AUTO_N,
+    # where it is not read)
+    dict(name="iks_statistical_test", file=_IK, cls="IncrementalKSTest", fn="_statistical_test", params=dict(X_ref=_VN, X=_VN), kwargs=dict(gcd=_f.INT, window_size=_f.INT)),
+]
+FN_ORACLES["np.sort"] = dict(coq="o_np_sort", ty="list (num A) -> list (num A)", params=["a"], ptypes=[_VN], ret=_VN)
+FN_ORACLES["np.round"] = dict(coq="o_np_round", ty="num A -> num A", params=["a"], ptypes=[_f.NUM], ret=_f.NUM)
+FN_ORACLES["kstwo.sf"] = dict(coq="o_kstwo_sf", ty="num A -> num A -> num A", params=["x", "n"], ptypes=[_f.NUM, _f.NUM], ret=_f.NUM)
+# SciPy's private exact-p-value routines; None = the call raised FloatingPointError / OverflowError under np.errstate
+FN_ORACLES["_compute_prob_outside_square"] = dict(coq="o_prob_outside_square", ty="Z -> Z -> option (num A)", params=["n", "h"], ptypes=[_f.INT, _f.INT], ret=_f.opt(_f.NUM))
+FN_ORACLES["_compute_outer_prob_inside_method"] = dict(coq="o_outer_prob_inside", ty="Z -> Z -> Z -> Z -> option (num A)", params=["m", "n", "g", "h"], ptypes=[_f.INT, _f.INT, _f.INT, _f.INT], ret=_f.opt(_f.NUM))
 FN_CONSTS = [(_PT, ["MAX_NUM_PERM"])]
-EQ.update({"C20": ["EqData.v"]})
+FN_CONSTS_IKS = [(_IK, ["MAX_AUTO_N"])]
+EQ.update({"C20": ["EqData.v"], "C11": ["EqIKS.v"]})
 EQ.update({"C10": ["EqDist.v"]})
 # property -> Eq files that are compiled against GFn.v
 EQ.update({"C13": ["EqPerm.v"]})
 
 
 # which units GFn.v holds when it is generated for one property's equivalence files (all of them for None)
-FN_FOR = {"C13": ("perm_",), "C10": ("dist_",), "C20": ("sea_", "dummy_")}
+FN_FOR = {"C13": ("perm_",), "C10": ("dist_",), "C20": ("sea_", "dummy_"), "C11": ("iks_",)}
 
 
 def translate_fns(repo, pid=None):
     """returns (coq text of GFn.v, {unit: error}, [oracle names])"""
     units = [u for u in FN_UNITS if pid is None or u["name"].startswith(FN_FOR.get(pid, ("",)))]
-    tr = _f.FnTranslator(repo, units, FN_ORACLES, FN_CONSTS if pid in (None, "C13") else []).run()
+    tr = _f.FnTranslator(repo, units, FN_ORACLES, (FN_CONSTS if pid in (None, "C13") else []) + (FN_CONSTS_IKS if pid in (None, "C11") else [])).run()
     return tr.emit(), tr.errors, sorted(tr.used_oracles)
 
 
